@@ -483,7 +483,7 @@ def race_runs(ctx, exe, thorough):
                 continue
             ids.add(bc[0])
             if not bc[0].startswith("s:") or not is_machine_id(unhx(bc[0][2:])):
-                why = why or "the machine id is not a 32-digit hexadecimal string: %r" % bc[0]
+                why = why or "the machine id is not a 32-digit hexadecimal string: %r" % (unhx(bc[0][2:]).decode("latin-1") if bc[0].startswith("s:") else bc[0])
         if not why and len(ids) != 1:
             why = "concurrent first calls returned %d different machine ids although the stored id was never removed" % len(ids)
         if why:
